@@ -161,7 +161,8 @@ impl Model for SelModel {
                 SelOp::Union(..) => r.unions.len() < 2 && !r.items.is_empty(),
                 SelOp::Order(..) => r.orders.len() < 2 && !r.from.is_empty(),
                 SelOp::Limit(_) => r.limit.is_none() && !r.items.is_empty(),
-                SelOp::Offset(_) => r.offset.is_none() && r.limit.is_some(),
+                // OFFSET without LIMIT is PostgreSQL grammar (out of domain on MySQL; the SQLite reference is rejected)
+                SelOp::Offset(_) => r.offset.is_none() && !r.items.is_empty(),
                 SelOp::Lock(_) => r.lock.is_none() && !r.from.is_empty(),
                 SelOp::Cte(..) => r.ctes.is_empty() && !r.items.is_empty(),
             })
